@@ -171,3 +171,11 @@ def run_c10(out, exe, tier, res):
     out.distinct_nontrivial = d   # same histories, second process: not more distinct cases
     out.coverage_extra["processes"] = 2
     out.coverage_extra["nonces_compared_across_processes"] = compared
+
+
+# ------------------------------------------------------------------------------------------------
+# C08: offline differential checker over event logs (both directions) against refpaseto
+# ------------------------------------------------------------------------------------------------
+def run_c08(out, exe, tier, res):
+    from . import c08
+    c08.run(out, exe, tier, res)
